@@ -871,6 +871,31 @@ theorem lex_literals_pinned :
     ∧ Cherab.Gen.AdfLex.conversionFactors = Cherab.Adf.Text.pinnedFactors := by
   refine ⟨by decide, by decide, by decide, by decide, by decide⟩
 
+/-- `install_files` and the installers are still the tables transcribed in the model -/
+theorem dispatch_table_pinned :
+    Cherab.Gen.AdfLex.dispatch = installDispatch ∧ Cherab.Gen.AdfLex.installers = installerTable := by
+  refine ⟨by decide, by decide⟩
+
+/-- **bulk install dispatch**: every configuration key runs exactly the installer of its own name and hands on
+`repository_path` / `adas_path` / `download`; every installer is reachable; no key runs two installers -/
+theorem dispatch_sound :
+    (∀ e ∈ installDispatch, e.2.1 = "install_" ++ e.1
+        ∧ e.2.2 = "download=download repository_path=repository_path adas_path=adas_path")
+    ∧ installDispatch.map (·.2.1) = installerTable.map (·.1)
+    ∧ (installDispatch.map (·.1)).Nodup := by
+  refine ⟨by decide, by decide, by decide⟩
+
+/-- no two installers write the same repository family, each ADF11 installer uses the notation class of its own name, and
+each parses with the parser of its format -/
+theorem installers_separate :
+    (installerTable.map (·.2.2.2)).Nodup
+    ∧ (∀ e ∈ installerTable, e.2.1 = "parse_adf11" → e.1 = "install_adf11" ++ e.2.2.1)
+    ∧ (∀ e ∈ installerTable, e.2.1 ≠ "parse_adf11" → e.1 = "install_" ++ String.ofList (e.2.1.toList.drop 6) ∧ e.2.2.1 = "") := by
+  refine ⟨by decide, by decide, by decide⟩
+
+example : installFilesTargets "ADF11prc" = ["install_adf11prc"]
+    ∧ installerWrites "install_adf11prc" = some "update_cx_power_rates(repository_path)" := by decide
+
 /-- the classes that the model shifts by −1 are exactly the strings listed in `_notation_adf11_adas2cherab` -/
 theorem charge_list_pinned (c : Class11) :
     (c.chargeCorrection = -1) ↔ c.code ∈ (Cherab.Gen.AdfLex.membershipLists.lookup "install.py:_notation_adf11_adas2cherab:in1").getD [] := by
